@@ -380,7 +380,7 @@ def executed_strategy():
 
 PHASES = [
     Phase("static", run_static, strategy=strategy,
-          examples={"quick": 800, "thorough": 6000}),
+          examples={"quick": 800, "thorough": 20000}),
     Phase("executed", run_executed, strategy=executed_strategy,
-          examples={"quick": 64, "thorough": 640}, shrink=False),
+          examples={"quick": 64, "thorough": 1500}, shrink=False),
 ]
